@@ -192,10 +192,54 @@ pub fn run(ctx: &Ctx) -> i32 {
                 }
             }
         }
+        // ... and outputs of DIFFERENT documents: after an output that was recognised as TOML or YAML, a JSON
+        // output whose text other trials would accept too (a one-element array reads as a TOML table header,
+        // a string with NEL / LS / PS folds in YAML) must still be recognised as JSON
+        {
+            use crate::run::{run_history, Call};
+            let shapes: Vec<Val> = vec![
+                Val::Seq(vec![Val::s("a")]),
+                Val::Seq(vec![Val::Int(1)]),
+                Val::Seq(vec![Val::Seq(vec![Val::s("deep")])]),
+                Val::Map(vec![(Val::s("s"), Val::s("a\u{85}b"))]),
+                Val::Seq(vec![Val::s("x\u{2028} y \u{2029}z")]),
+                Val::Seq(vec![Val::Seq(vec![])]),
+                Val::Map(vec![(Val::s("a"), Val::Map(vec![]))]),
+                gen_doc_for_detection(&mut rng, &mut cl),
+            ];
+            let b_doc = &shapes[i % shapes.len()];
+            let mut f2 = Feats::default();
+            let mut b_src = spell(Fmt::Json, b_doc, &mut rng, &mut f2, true);
+            b_src.push(b'\n');
+            let b_json = run_slice(&b_src, Some(Fmt::Json), Fmt::Json);
+            let x = STREAMING[(i / 3) % 3];
+            if b_json.verdict.is_ok() && detect_slice(&b_json.out) == Ok(Some(Fmt::Json)) {
+                for (f, first) in own_outputs.iter().filter(|(f, _)| matches!(f, Fmt::Toml | Fmt::Yaml)) {
+                    let calls = vec![Call { input: first.clone(), from: None, mode: Mode::Slice }, Call { input: b_json.out.clone(), from: None, mode: if i % 2 == 0 { Mode::Slice } else { Mode::Reader(Sched::Fixed(3)) } }];
+                    let alone: Vec<_> = calls.iter().map(|c| run_mode(&c.input, &c.mode, None, x)).collect();
+                    if !alone.iter().all(|o| o.verdict.is_ok()) {
+                        continue;
+                    }
+                    acc.evals += 1;
+                    acc.count("json_output_after_toml_or_yaml_on_one_translator");
+                    let (verdicts, wlog) = run_history(&calls, x, crate::mon::MonWriter::new(), true);
+                    let expected: Vec<u8> = alone.iter().flat_map(|o| o.out.iter().copied()).collect();
+                    if verdicts.iter().any(|v| !v.is_ok()) || wlog.bytes != expected {
+                        acc.violation(Violation {
+                            sig: format!("own json output after own {} output on one translator ->{}: recognised differently than alone", f.name(), x.name()),
+                            case: json!({"part": "one_translator", "order": [f.name(), "json"], "then_to": x.name(), "outputs_hex": [hex(first), hex(&b_json.out)], "outputs_preview": [preview(first, 100), preview(&b_json.out, 100)]}),
+                            observed: format!("verdicts {:?}; written [{}]", verdicts.iter().map(|v| v.show()).collect::<Vec<_>>(), preview(&wlog.bytes, 200)),
+                            expected: format!("the separate translations [{}]", preview(&expected, 200)),
+                        });
+                        break;
+                    }
+                }
+            }
+        }
     });
     let rule = format!("{} document sets (1-5 collection-rooted documents; maps get a first key from a pool of {} detection-hostile keys: empty, numeric-looking, quoted, YAML/TOML indicators, non-ASCII incl. U+0080-U+07FF) x 4 output formats (TOML: first document, TOML-representable), every 600th set a single root map/array of 65 535..70 000 entries; every output is offered to the detect hook as a slice and under 3 read schedules, and xt(None->X) is compared with xt(F->X) in slice and reader mode; the outputs of one set are also fed one after the other through ONE translator without a source format; distinct non-trivial = distinct document sets", n, FIRST_KEYS.len());
     ev::finish(
-        Finish { ctx, level: "exploration", rule, assumptions: vec!["TOML exceptions decided by the harness's hand-written JSON reader and libyaml-event reader, not by xt".into(), "an empty table is written to TOML as zero bytes; that empty text must still be recognised as TOML".into()], extra: serde_json::Map::new(), exhaustive: false, min_distinct: 1000, must_reach: vec![("pipeline_equivalence_checked".into(), 1000), ("huge_root_collections".into(), 5), ("detected_toml_as_toml".into(), 100), ("detected_yaml_as_yaml".into(), 100), ("detected_msgpack_as_msgpack".into(), 100), ("detected_json_as_json".into(), 100), ("own_outputs_through_one_translator".into(), 1000)] },
+        Finish { ctx, level: "exploration", rule, assumptions: vec!["TOML exceptions decided by the harness's hand-written JSON reader and libyaml-event reader, not by xt".into(), "an empty table is written to TOML as zero bytes; that empty text must still be recognised as TOML".into()], extra: serde_json::Map::new(), exhaustive: false, min_distinct: 1000, must_reach: vec![("pipeline_equivalence_checked".into(), 1000), ("huge_root_collections".into(), 5), ("detected_toml_as_toml".into(), 100), ("detected_yaml_as_yaml".into(), 100), ("detected_msgpack_as_msgpack".into(), 100), ("detected_json_as_json".into(), 100), ("own_outputs_through_one_translator".into(), 1000), ("json_output_after_toml_or_yaml_on_one_translator".into(), 1000)] },
         acc,
     )
 }
